@@ -93,8 +93,8 @@ theorem elementwise_keeps_grid_unary (gs : Grids) (lo ln : Nat → Except Err Va
     eval newPolicy gs ln (.un u e) = .ok (a, .field g) := by
   have hg : leftGrid [Tag.field g] = some g := rfl
   constructor
-  · simp [eval, ho, hk, Except.map, elementwise_keeps_grid_old _ _ _ hg]
-  · simp [eval, hn, hk, Except.map, elementwise_keeps_grid_new _ _ _ hg hnd]
+  · cases u <;> simp [eval, ho, hk, Except.map, unTag, elementwise_keeps_grid_old _ _ _ hg]
+  · cases u <;> simp [eval, hn, hk, Except.map, unTag, elementwise_keeps_grid_new _ _ _ hg hnd]
 
 /-- **copy and pickle round trips**: under any wrapping policy, `copy(e)` and
 `pickle.loads(pickle.dumps(e))` evaluate to exactly what `e` evaluates to — same values, same
